@@ -380,8 +380,27 @@ def r4_policy_filter(run):
             # and its result is what is returned
             for cid in checks:
                 st = cfg.nodes[cid].ast
-                run.check(isinstance(st, ast.Assign) and
-                          unparse(st.targets[0]) == "_ava", "R4",
+                # ... the variable it is assigned to is what a return hands
+                # out (directly or through plain copies)
+                kept = False
+                if isinstance(st, ast.Assign) and \
+                        isinstance(st.targets[0], ast.Name):
+                    for r in cfg.by_kind("return"):
+                        if not isinstance(r.ast.value, ast.Name):
+                            continue
+                        todo = [(r.ast.value.id, r.id)]
+                        seen = set()
+                        while todo:
+                            nm, at = todo.pop()
+                            for dd in cfg.rd.reaching(nm, at):
+                                if (dd.name, dd.node) in seen:
+                                    continue
+                                seen.add((dd.name, dd.node))
+                                if dd.node == cid:
+                                    kept = True
+                                elif isinstance(dd.value, ast.Name):
+                                    todo.append((dd.value.id, dd.node))
+                run.check(kept, "R4",
                           fi.qual + "::restriction-result-kept",
                           "its result becomes the answer",
                           "result of the restriction filter is discarded",
